@@ -66,6 +66,8 @@ def execute(case, seed, choices=None):
         W.on_worker_started(child, process_obj)
     k.cfg['_on_child'] = on_child
     k.cfg['_on_pass_end'] = W.on_pass_end
+    k.cfg['_on_pass_begin'] = W.on_pass_begin
+    k.cfg['_on_worker_created'] = W.on_worker_created
     k.cfg['_on_sig_deliver'] = W.on_sig_deliver
 
     def host_term(signum, frame):
